@@ -23,7 +23,7 @@ SumSeq(s) == IF s = <<>> THEN 0 ELSE Head(s) + SumSeq(Tail(s))
 AxisIdle(rate, steps, accel) == (rate = 0 /\ accel = 0) \/ steps = 0
 \* big-endian two's complement bytes of a signed 32-bit value, without leaving 32-bit arithmetic
 ByteOfNat(n, k) == (n \div (IF k = 0 THEN 16777216 ELSE IF k = 1 THEN 65536 ELSE IF k = 2 THEN 256 ELSE 1)) % 256      \* k = 0 most significant
-Int32Byte(v, k) == IF v >= 0 THEN ByteOfNat(v, k) ELSE 255 - ByteOfNat((0 - v) - 1, k)
+Int32Byte(v, k) == IF v >= 0 THEN ByteOfNat(v, k) ELSE 255 - ByteOfNat(0 - (v + 1), k)       \* -(v+1) also fits for v = -2^31
 
 \* Helpers that exist in BOTH layers carry the same id; Layer(h) says where a helper exists.
 Both == {"timed_pause", "xy_move", "abs_move", "motors_disable", "motors_enable_both", "pen_lower", "pen_raise",
